@@ -153,6 +153,11 @@ def plan_seq(pid, tier, seed, ncpu):
             js += con_jobs(bindirs["dbg"], workdir, known, pid, "baton", seed, 2, programs=scale(tier, 800, 20000), schedules=10)
         if pid == "C07":
             js += con_jobs(bindirs["dbg"], workdir, known, pid, "chase", seed, 2, programs=scale(tier, 200, 6000), schedules=3)
+        if pid in ("C05", "C06"):
+            # expiry chase: writers re-insert and move the clock by about one period, readers read at full speed; the only
+            # reason for a value to disappear is its deadline (concurrent ttl rule; idle-deadline fixpoint rule)
+            js += con_jobs(bindirs["dbg"], workdir, known, pid, "chase", seed, 3, programs=scale(tier, 300, 9000), schedules=3, extra=["--expiry-every", "1"], tag="-expiry")
+            js += con_jobs(bindirs["dbg0"], workdir, known, pid, "chase", seed + 9, 1, programs=scale(tier, 60, 2000), schedules=3, variant="dbg0", extra=["--expiry-every", "1"], tag="-expiry")
         if pid in ("C03", "C07", "C10"):
             js += con_jobs(bindirs["dbg"], workdir, known, pid, "baton", seed, 4, programs=scale(tier, 1200, 40000), schedules=scale(tier, 10, 20))
             js += con_jobs(bindirs["dbg"], workdir, known, pid, "stress", seed, 2, programs=scale(tier, 160, 8000), schedules=scale(tier, 5, 10))
@@ -196,13 +201,22 @@ def plan_seq(pid, tier, seed, ncpu):
                       "key exactly once, value written by an insert that began before the iteration ended and not replaced by a write that completed before it began. "
                       "Random, contention and invalidate_all-storm programs carry iterations among their reads; every pair an iteration yields is judged against the call/return "
                       "history like a get spanning the iteration (no value replaced, invalidated or expired by an operation that completed before it began; no key twice).")
+    if pid in ("C05", "C06"):
+        extra_floors = {"gets_judged": 100000 * m10, "observations_judged_by_idle_deadline_rule": 10000 * m10}
+        if pid == "C06":
+            extra_floors["observations_kept_alive_only_by_another_get"] = 1000 * m10
+        extra_rule = (" Concurrent clause (expiry chase): one or two writers keep re-inserting one or two keys and move the shared mock clock by about one expiry period "
+                      "after each insert (keep-alive variant: rare writes, gets in steps of less than an idle period), 2-4 readers get / contains_key / iterate at full speed; "
+                      "time_to_live: no get returns a value whose insert had returned a full period (by the clock) before the get began; time_to_idle: every observation must "
+                      "be justified by an insert of the key, or by a justified get of it, that began before the observation returned and whose call ended less than a period "
+                      "(by the clock) before the observation began (least fixpoint).")
     fl = {k: int(v * (1 if tier == "quick" else min(mult, 10))) for k, v in floors.items()}
     fl.update(extra_floors)
     if pid in ("C01", "C05", "C06", "C07", "C03", "C10", "C16"):
         fl["faults_fired"] = 1000 * m10
         fault_rule = (" Fault clause: in a share of the histories a callback of the caller (V::clone, the weigher, the predicate of invalidate_entries_if) panics at a chosen "
                        "call of the next operation; if nothing at all changed the operation did not happen, otherwise the ground truth keeps both outcomes; lookups are judged as always.")
-    variants = ["dbg"] + (["rel"] if pid in ("C03", "C04", "C10") else []) + (["dbg0"] if pid in ("C04", "C10") else [])
+    variants = ["dbg"] + (["rel"] if pid in ("C03", "C04", "C10") else []) + (["dbg0"] if pid in ("C04", "C10", "C05", "C06") else [])
     return dict(variants=variants, jobs=jobs, floors=fl,
                 rule=rule + extra_rule + fault_rule, assumptions=COMMON_ASSUMPTIONS + (CON_ASSUMPTIONS[len(COMMON_ASSUMPTIONS):] if extra_rule else []),
                 watchdog_s=scale(tier, 900, 7200))
@@ -229,10 +243,10 @@ def plan_c15(pid, tier, seed, ncpu):
                 watchdog_s=scale(tier, 600, 3600))
 
 
-def con_jobs(bindir, workdir, known, prop, mode, seed, nshards, programs=0, schedules=0, rounds=0, variant="dbg", watchdog_s=None):
+def con_jobs(bindir, workdir, known, prop, mode, seed, nshards, programs=0, schedules=0, rounds=0, variant="dbg", watchdog_s=None, extra=None, tag=""):
     jobs = []
     for s in range(nshards):
-        out = os.path.join(workdir, "con-%s-%s-%d.json" % (variant, mode, s))
+        out = os.path.join(workdir, "con-%s-%s%s-%d.json" % (variant, mode, tag, s))
         argv = [os.path.join(bindir, "conmon"), "--prop", prop, "--mode", mode,
                 "--seed", str(seed * 100003 + s * 104729 + hash_str(mode) % 1000),
                 "--out", out, "--known", ",".join(known)]
@@ -240,7 +254,9 @@ def con_jobs(bindir, workdir, known, prop, mode, seed, nshards, programs=0, sche
             argv += ["--programs", str(max(1, programs // nshards)), "--schedules", str(schedules)]
         if rounds:
             argv += ["--rounds", str(max(1, rounds // nshards))]
-        j = dict(name="con-%s-%s-%d" % (variant, mode, s), argv=argv, out=out, kind="report")
+        if extra:
+            argv += extra
+        j = dict(name="con-%s-%s%s-%d" % (variant, mode, tag, s), argv=argv, out=out, kind="report")
         if watchdog_s:
             j["watchdog_s"] = watchdog_s
         jobs.append(j)
